@@ -7,7 +7,12 @@ INT = z3.IntSort()
 BOOL = z3.BoolSort()
 STR = z3.StringSort()
 
-SORTS = {"int": INT, "bool": BOOL, "str": STR, "ref": Ref}
+# strings that the code only compares / hashes (names used as keys) may be
+# modelled as atoms of an uninterpreted sort: any string operation on an atom
+# is 'unsupported', so the abstraction cannot hide behaviour.
+ATOM = z3.DeclareSort("Atom")
+
+SORTS = {"int": INT, "bool": BOOL, "str": STR, "ref": Ref, "atom": ATOM}
 
 
 def sort_of(tag):
@@ -70,6 +75,16 @@ class VStr(V):
 
     def __repr__(self):
         return f"VStr({self.e})"
+
+
+class VAtom(V):
+    tag = "atom"
+
+    def __init__(self, e):
+        self.e = e
+
+    def __repr__(self):
+        return f"VAtom({self.e})"
 
 
 class VRef(V):
